@@ -212,6 +212,55 @@ func (c *Ctx) Guard(what string, detail func() interface{}, f func()) (ok bool) 
 	return true
 }
 
+// GuardDep is Guard for calls that run third-party code behind the code under
+// test (golang.org/x/image/vector behind raster/vec): a panic raised inside the
+// named dependency (innermost non-runtime frame) is counted and sampled as
+// "dependency_panic" but is not a violation of the code under test; dep
+// reports that case. Any other panic is a violation as with Guard.
+func (c *Ctx) GuardDep(what, depPrefix string, detail func() interface{}, f func()) (ok, dep bool) {
+	defer func() {
+		if r := recover(); r != nil {
+			ok = false
+			st := string(debug.Stack())
+			if len(st) > 3000 {
+				st = st[:3000]
+			}
+			lines := strings.Split(st, "\n")
+			origin := ""
+			seenPanic := false
+			for _, l := range lines {
+				if strings.HasPrefix(l, "\t") {
+					continue
+				}
+				if strings.HasPrefix(l, "panic(") {
+					seenPanic = true
+					continue
+				}
+				if !seenPanic || strings.HasPrefix(l, "runtime.") {
+					continue
+				}
+				origin = l
+				break
+			}
+			var d interface{}
+			if detail != nil {
+				d = detail()
+			}
+			if strings.HasPrefix(origin, depPrefix) {
+				dep = true
+				c.Count("dependency_panic", 1)
+				if n := c.res.Counts["dependency_panic"]; n <= 2 {
+					c.res.Samples = append(c.res.Samples, map[string]interface{}{"dependency_panic": fmt.Sprint(r), "origin": origin, "case": d})
+				}
+				return
+			}
+			c.Violate("panic/"+what, map[string]interface{}{"panic": fmt.Sprint(r), "stack": lines, "case": d})
+		}
+	}()
+	f()
+	return true, false
+}
+
 func newSubResult(name string) *SubResult {
 	return &SubResult{Sub: name, Counts: map[string]int64{}, Max: map[string]float64{}, hashes: map[uint64]struct{}{}}
 }
